@@ -33,7 +33,7 @@ enum Positions {
 #[derive(Clone, Debug)]
 enum Gen {
 	/// All tip sequences of length 1..=t for one (tree, mode, via_init, start).
-	SpvTips { t: usize },
+	SpvTips { t_lo: usize, t_hi: usize },
 	/// Fixed tip list.
 	SpvFixed { tips: Vec<usize> },
 	/// Start-up sync: second listener and best tip range over all nodes.
@@ -44,6 +44,7 @@ enum Gen {
 
 #[derive(Clone, Debug)]
 struct Item {
+	phase: usize,
 	family: &'static str,
 	tree: TreeSpec,
 	kind: Kind,
@@ -80,6 +81,7 @@ struct Acc {
 	evict: BTreeMap<usize, (u64, u64)>, // fork depth -> (base runs, main-chain header requests in the reorg poll)
 	batch_multi: u64,
 	incomplete_items: u64,
+	incomplete_by_phase: BTreeMap<usize, u64>,
 	samples: Vec<Value>,
 }
 
@@ -137,6 +139,9 @@ impl Acc {
 		}
 		self.batch_multi += o.batch_multi;
 		self.incomplete_items += o.incomplete_items;
+		for (k, v) in o.incomplete_by_phase {
+			*self.incomplete_by_phase.entry(k).or_insert(0) += v;
+		}
 		for s in o.samples {
 			if self.samples.len() < 12 {
 				self.samples.push(s);
@@ -175,7 +180,7 @@ struct FailSig {
 /// failure signature. A failure that the same scenario with one fault fewer (`parent`) already
 /// shows is attributed to that smaller scenario's group: the extra fault is not part of the cause.
 fn run_one(
-	acc: &mut Acc, scn: &Scenario, tree: &Arc<Tree>, parent: Option<&FailSig>,
+	acc: &mut Acc, scn: &Scenario, tree: &Arc<Tree>, parent: Option<&FailSig>, alt: Option<&Scenario>,
 ) -> (Option<Vec<Req>>, Option<FailSig>) {
 	acc.runs += 1;
 	*acc.per_family.entry(format!("{}/{}", scn.family, if scn.kind == Kind::Spv { "spv" } else { "init" })).or_insert(0) += 1;
@@ -186,6 +191,7 @@ fn run_one(
 	}
 	let failure: Option<run::Failure>;
 	let mut in_init = scn.kind == Kind::Init;
+	let mut culprit: Option<FaultClass> = None;
 	let log;
 	match guarded_execute(scn, tree, false) {
 		Ok(out) => {
@@ -220,6 +226,7 @@ fn run_one(
 			}
 			if out.failure.is_some() {
 				in_init = out.failure_in_init;
+				culprit = out.culprit;
 			}
 			failure = out.failure;
 			log = Some(out.log);
@@ -241,7 +248,27 @@ fn run_one(
 				sig = Some(p.clone());
 			},
 			_ => {
-				let mut classes: Vec<&str> = scn.faults.iter().map(|f| f.class.name()).collect();
+				// A two-fault failure that the second fault alone reproduces belongs to that fault.
+				let mut scn = scn;
+				let mut f = f;
+				if let Some(a) = alt {
+					let (af, a_init) = match guarded_execute(a, tree, false) {
+						Ok(o) => (o.failure, o.failure_in_init),
+						Err(p) => (Some(("no-panic".to_string(), format!("panic inside the code under test: {}", p))), a.kind == Kind::Init),
+					};
+					if let Some(af) = af {
+						if format!("{}|{}", if a_init { "startup-sync" } else { "poll" }, af.0) == what {
+							scn = a;
+							f = af;
+						}
+					}
+				}
+				// If an invalid block reached the listener, the fault that fabricated it is the cause; other
+				// faults of the run merely steered the execution there.
+				let mut classes: Vec<&str> = match culprit {
+					Some(c) if alt.is_none() || scn.faults.iter().any(|f| f.class == c) => vec![c.name()],
+					_ => scn.faults.iter().map(|f| f.class.name()).collect(),
+				};
 				classes.sort();
 				let key = format!("{}|{}", what, if classes.is_empty() { "no-fault".to_string() } else { classes.join("+") });
 				acc.add_group(key.clone(), (scn.order_key(), scn.clone(), f, 1));
@@ -283,7 +310,7 @@ fn classes_for(req: &Req, tree: &Tree, scn: &Scenario, lies: bool) -> Vec<FaultC
 
 /// Base run plus a fault at every (selected) request, plus fault pairs if asked.
 fn run_with_faults(acc: &mut Acc, base: &Scenario, tree: &Arc<Tree>, item: &Item) {
-	let (log, sig0) = run_one(acc, base, tree, None);
+	let (log, sig0) = run_one(acc, base, tree, None, None);
 	let log = match log {
 		Some(l) => l,
 		None => return,
@@ -304,7 +331,7 @@ fn run_with_faults(acc: &mut Acc, base: &Scenario, tree: &Arc<Tree>, item: &Item
 		for c in classes_for(&log[k], tree, base, item.lies) {
 			let mut s1 = base.clone();
 			s1.faults = vec![Fault { at: k, class: c }];
-			let (log1, sig1) = run_one(acc, &s1, tree, sig0.as_ref());
+			let (log1, sig1) = run_one(acc, &s1, tree, sig0.as_ref(), None);
 			if acc.samples.len() < 4 && acc.runs % 89 == 1 {
 				if let Ok(out) = guarded_execute(&s1, tree, true) {
 					acc.samples.push(json!({"scenario": s1.to_json(), "trace": out.trace}));
@@ -322,7 +349,9 @@ fn run_with_faults(acc: &mut Acc, base: &Scenario, tree: &Arc<Tree>, item: &Item
 					let mut s2 = base.clone();
 					s2.family = "pairs".to_string();
 					s2.faults = vec![Fault { at: k, class: c }, Fault { at: k2, class: c2 }];
-					run_one(acc, &s2, tree, sig1.as_ref());
+					let mut alt = base.clone();
+					alt.faults = vec![Fault { at: k2, class: c2 }];
+					run_one(acc, &s2, tree, sig1.as_ref(), Some(&alt));
 				}
 			}
 		}
@@ -349,9 +378,9 @@ fn process_item(item: &Item, deadline: Instant) -> Acc {
 	};
 	let mut bases: Vec<Scenario> = Vec::new();
 	match &item.gen {
-		Gen::SpvTips { t } => {
+		Gen::SpvTips { t_lo, t_hi } => {
 			let mut seqs: Vec<Vec<usize>> = vec![vec![]];
-			for _ in 0..*t {
+			for len in 1..=*t_hi {
 				let mut next = Vec::new();
 				for s in &seqs {
 					for x in 0..n {
@@ -360,8 +389,10 @@ fn process_item(item: &Item, deadline: Instant) -> Acc {
 						next.push(s2);
 					}
 				}
-				for s in &next {
-					bases.push(mk(vec![item.start], s.clone()));
+				if len >= *t_lo {
+					for s in &next {
+						bases.push(mk(vec![item.start], s.clone()));
+					}
 				}
 				seqs = next;
 			}
@@ -383,6 +414,7 @@ fn process_item(item: &Item, deadline: Instant) -> Acc {
 	for (i, b) in bases.iter().enumerate() {
 		if Instant::now() >= deadline {
 			acc.incomplete_items += 1;
+			*acc.incomplete_by_phase.entry(item.phase).or_insert(0) += 1;
 			let _ = i;
 			break;
 		}
@@ -391,9 +423,9 @@ fn process_item(item: &Item, deadline: Instant) -> Acc {
 	acc
 }
 
-fn tree_specs(max_blocks: usize) -> Vec<TreeSpec> {
+fn tree_specs(min_blocks: usize, max_blocks: usize) -> Vec<TreeSpec> {
 	let mut v = Vec::new();
-	for nodes in 1..=(max_blocks + 1) {
+	for nodes in (min_blocks + 1)..=(max_blocks + 1) {
 		for p in rooted_trees(nodes) {
 			let h = vec![false; p.len()];
 			v.push(TreeSpec::Explicit { parents: p, heavy: h });
@@ -402,9 +434,9 @@ fn tree_specs(max_blocks: usize) -> Vec<TreeSpec> {
 	v
 }
 
-fn weighted_specs(max_blocks: usize) -> Vec<TreeSpec> {
+fn weighted_specs(min_blocks: usize, max_blocks: usize) -> Vec<TreeSpec> {
 	let mut v = Vec::new();
-	for nodes in 2..=(max_blocks + 1) {
+	for nodes in (min_blocks.max(1) + 1)..=(max_blocks + 1) {
 		for p in rooted_trees(nodes) {
 			let k = p.len();
 			for mask in 1u32..(1 << k) {
@@ -416,24 +448,62 @@ fn weighted_specs(max_blocks: usize) -> Vec<TreeSpec> {
 	v
 }
 
-struct Plan {
-	n: usize,
-	t: usize,
-	pairs_n: usize,
-	pairs_t: usize,
-	weights_n: usize,
-	weights_t: usize,
+/// One phase of the enumeration. Phases run in order, so a wall-clock cap leaves the earlier
+/// (smaller) phases complete.
+#[derive(Clone, Debug, Default)]
+struct Phase {
+	name: &'static str,
+	/// (blocks_lo, blocks_hi, tips_lo, tips_hi): all rooted trees with that many non-genesis blocks,
+	/// all tip sequences with that many tips. The start-up sync enumeration of a tree goes with
+	/// the range that has tips_lo == 1.
+	trees: Vec<(usize, usize, usize, usize)>,
+	/// Fault pairs: (blocks_hi, tips_hi).
+	pairs: Option<(usize, usize)>,
+	/// Weighted trees: (blocks_lo, blocks_hi, tips_hi).
+	weights: Option<(usize, usize, usize)>,
 	evict_depths: Vec<usize>,
 	evict_modes: Vec<SrcMode>,
-	evict_positions: Positions,
+	evict_all_positions: bool,
 	batch_lens: Vec<usize>,
-	modes: Vec<SrcMode>,
-	lies: bool,
 }
 
-fn build_items(plan: &Plan) -> Vec<Item> {
+const MODES: [SrcMode; 3] = [SrcMode::Full, SrcMode::HeaderOnly, SrcMode::Mixed];
+
+fn quick_phase() -> Phase {
+	Phase {
+		name: "quick-bounds",
+		trees: vec![(0, 5, 1, 2)],
+		pairs: Some((1, 2)),
+		weights: Some((1, 3, 2)),
+		evict_depths: vec![LIMIT - 1, LIMIT, LIMIT + 1],
+		evict_modes: vec![SrcMode::Full],
+		evict_all_positions: false,
+		batch_lens: vec![36, 37],
+	}
+}
+
+fn thorough_phases() -> Vec<Phase> {
+	vec![
+		quick_phase(),
+		Phase {
+			name: "families",
+			pairs: Some((3, 2)),
+			weights: Some((4, 5, 2)),
+			evict_depths: vec![LIMIT - 1, LIMIT, LIMIT + 1, LIMIT + 3],
+			evict_modes: vec![SrcMode::Full, SrcMode::HeaderOnly],
+			evict_all_positions: true,
+			batch_lens: vec![35, 72, 73],
+			..Phase::default()
+		},
+		Phase { name: "trees<=6,tips<=3", trees: vec![(0, 5, 3, 3), (6, 6, 1, 3)], ..Phase::default() },
+		Phase { name: "trees=7,tips<=3", trees: vec![(7, 7, 1, 3)], ..Phase::default() },
+	]
+}
+
+fn build_items(ph: &Phase, phase: usize, lies: bool) -> Vec<Item> {
 	let mut items = Vec::new();
 	let proto = Item {
+		phase,
 		family: "trees",
 		tree: TreeSpec::Explicit { parents: vec![], heavy: vec![] },
 		kind: Kind::Spv,
@@ -446,64 +516,74 @@ fn build_items(plan: &Plan) -> Vec<Item> {
 		gen: Gen::InitAll,
 		faults: true,
 		pairs: false,
-		lies: plan.lies,
+		lies,
 		positions: Positions::All,
 	};
 	// Family "trees": every rooted tree shape.
-	for spec in tree_specs(plan.n) {
-		let nodes = spec.blocks() + 1;
-		for &mode in &plan.modes {
-			for start in 0..nodes {
-				for via_init in [false, true] {
-					items.push(Item {
-						tree: spec.clone(),
-						mode,
-						via_init,
-						start,
-						gen: Gen::SpvTips { t: plan.t },
-						..proto.clone()
-					});
-				}
-				for locator_prev in [true, false] {
-					for forget_stale in [false, true] {
+	for &(n_lo, n_hi, t_lo, t_hi) in &ph.trees {
+		for spec in tree_specs(n_lo, n_hi) {
+			let nodes = spec.blocks() + 1;
+			for &mode in &MODES {
+				for start in 0..nodes {
+					for via_init in [false, true] {
 						items.push(Item {
 							tree: spec.clone(),
-							kind: Kind::Init,
 							mode,
+							via_init,
 							start,
-							locator_prev,
-							forget_stale,
-							gen: Gen::InitAll,
+							gen: Gen::SpvTips { t_lo, t_hi },
 							..proto.clone()
 						});
 					}
+					if t_lo > 1 {
+						continue;
+					}
+					for locator_prev in [true, false] {
+						for forget_stale in [false, true] {
+							items.push(Item {
+								tree: spec.clone(),
+								kind: Kind::Init,
+								mode,
+								start,
+								locator_prev,
+								forget_stale,
+								gen: Gen::InitAll,
+								..proto.clone()
+							});
+						}
+					}
+				}
+			}
+			// Regtest rules (no difficulty checks): error-free runs only, the fault handling is the same code.
+			for start in 0..nodes {
+				for via_init in [false, true] {
+					items.push(Item {
+						tree: spec.clone(),
+						mainnet: false,
+						via_init,
+						start,
+						gen: Gen::SpvTips { t_lo, t_hi },
+						faults: false,
+						..proto.clone()
+					});
+				}
+				if t_lo == 1 {
+					items.push(Item { tree: spec.clone(), kind: Kind::Init, mainnet: false, start, faults: false, ..proto.clone() });
 				}
 			}
 		}
-		// Regtest rules (no difficulty checks): error-free runs only, the fault classes are the same code.
-		for start in 0..nodes {
-			for via_init in [false, true] {
-				items.push(Item {
-					tree: spec.clone(),
-					mainnet: false,
-					via_init,
-					start,
-					gen: Gen::SpvTips { t: plan.t },
-					faults: false,
-					..proto.clone()
-				});
-			}
-			items.push(Item { tree: spec.clone(), kind: Kind::Init, mainnet: false, start, faults: false, ..proto.clone() });
-		}
-		// Fault pairs on the small end of the space.
-		if plan.pairs_n > 0 && spec.blocks() <= plan.pairs_n {
+	}
+	// Fault pairs on the small end of the space.
+	if let Some((n_hi, t_hi)) = ph.pairs {
+		for spec in tree_specs(0, n_hi) {
+			let nodes = spec.blocks() + 1;
 			for start in 0..nodes {
 				for via_init in [false, true] {
 					items.push(Item {
 						tree: spec.clone(),
 						via_init,
 						start,
-						gen: Gen::SpvTips { t: plan.pairs_t },
+						gen: Gen::SpvTips { t_lo: 1, t_hi },
 						pairs: true,
 						..proto.clone()
 					});
@@ -513,29 +593,31 @@ fn build_items(plan: &Plan) -> Vec<Item> {
 		}
 	}
 	// Family "weights": blocks of different difficulty, so work and height disagree (regtest rules).
-	for spec in weighted_specs(plan.weights_n) {
-		let nodes = spec.blocks() + 1;
-		for start in 0..nodes {
-			for via_init in [false, true] {
-				items.push(Item {
-					family: "weights",
-					tree: spec.clone(),
-					mainnet: false,
-					via_init,
-					start,
-					gen: Gen::SpvTips { t: plan.weights_t },
-					..proto.clone()
-				});
+	if let Some((n_lo, n_hi, t_hi)) = ph.weights {
+		for spec in weighted_specs(n_lo, n_hi) {
+			let nodes = spec.blocks() + 1;
+			for start in 0..nodes {
+				for via_init in [false, true] {
+					items.push(Item {
+						family: "weights",
+						tree: spec.clone(),
+						mainnet: false,
+						via_init,
+						start,
+						gen: Gen::SpvTips { t_lo: 1, t_hi },
+						..proto.clone()
+					});
+				}
+				items.push(Item { family: "weights", tree: spec.clone(), kind: Kind::Init, mainnet: false, start, ..proto.clone() });
 			}
-			items.push(Item { family: "weights", tree: spec.clone(), kind: Kind::Init, mainnet: false, start, ..proto.clone() });
 		}
 	}
 	// Family "evict": fork depth around HEADER_CACHE_LIMIT.
 	let main = LIMIT + 6;
-	for &d in &plan.evict_depths {
+	for &d in &ph.evict_depths {
 		let spec = TreeSpec::Fork { main, at: main - d, len: d + 1 };
 		let fork_tip = main + d + 1;
-		for &mode in &plan.evict_modes {
+		for &mode in &ph.evict_modes {
 			for via_init in [false, true] {
 				items.push(Item {
 					family: "evict",
@@ -544,7 +626,7 @@ fn build_items(plan: &Plan) -> Vec<Item> {
 					via_init,
 					start: 0,
 					gen: Gen::SpvFixed { tips: vec![main, fork_tip] },
-					positions: plan.evict_positions,
+					positions: if ph.evict_all_positions { Positions::All } else { Positions::Sparse },
 					..proto.clone()
 				});
 			}
@@ -561,7 +643,7 @@ fn build_items(plan: &Plan) -> Vec<Item> {
 		});
 	}
 	// Family "batch": start-up sync across the 36-block fetch batches.
-	for &l in &plan.batch_lens {
+	for &l in &ph.batch_lens {
 		let spec = TreeSpec::Fork { main: l, at: 1, len: 2 };
 		let cands = vec![0usize, 2, l + 2, l - 1];
 		for &s1 in &cands {
@@ -575,6 +657,18 @@ fn build_items(plan: &Plan) -> Vec<Item> {
 			});
 		}
 	}
+	// Largest work first inside a phase so the tail of the parallel run is short.
+	let weight = |it: &Item| -> u64 {
+		let n = it.tree.blocks() as u64 + 1;
+		let base = match &it.gen {
+			Gen::SpvTips { t_lo, t_hi } => (*t_lo as u32..=*t_hi as u32).map(|k| n.pow(k)).sum::<u64>(),
+			Gen::SpvFixed { .. } => 40,
+			Gen::InitAll => n * n,
+			Gen::InitFixed { others, .. } => others.len() as u64 * 4,
+		};
+		base * n * if it.faults { 60 } else { 1 } * if it.pairs { 60 } else { 1 }
+	};
+	items.sort_by_key(|it| std::cmp::Reverse(weight(it)));
 	items
 }
 
@@ -619,51 +713,13 @@ fn main() {
 	}
 	par::install_quiet_panic_hook();
 	let thorough = args.tier == Tier::Thorough;
-	let all_modes = vec![SrcMode::Full, SrcMode::HeaderOnly, SrcMode::Mixed];
-	let mut plan = if thorough {
-		Plan {
-			n: 7,
-			t: 3,
-			pairs_n: 3,
-			pairs_t: 2,
-			weights_n: 5,
-			weights_t: 2,
-			evict_depths: vec![LIMIT - 1, LIMIT, LIMIT + 1, LIMIT + 3],
-			evict_modes: vec![SrcMode::Full, SrcMode::HeaderOnly],
-			evict_positions: Positions::All,
-			batch_lens: vec![35, 36, 37, 72, 73],
-			modes: all_modes,
-			lies: false,
-		}
-	} else {
-		Plan {
-			n: 5,
-			t: 2,
-			pairs_n: 0,
-			pairs_t: 0,
-			weights_n: 3,
-			weights_t: 2,
-			evict_depths: vec![LIMIT - 1, LIMIT, LIMIT + 1],
-			evict_modes: vec![SrcMode::Full],
-			evict_positions: Positions::Sparse,
-			batch_lens: vec![36, 37],
-			modes: all_modes,
-			lies: false,
-		}
-	};
+	let lies = args.opt_u64("lies").unwrap_or(0) != 0;
+	let mut phases = if thorough { thorough_phases() } else { vec![quick_phase()] };
 	if let Some(n) = args.opt_u64("n") {
-		plan.n = n as usize;
+		// Ad-hoc bound for experiments: a single phase with trees <= n blocks.
+		let t = args.opt_u64("t").unwrap_or(2) as usize;
+		phases = vec![Phase { name: "custom", trees: vec![(0, n as usize, 1, t)], ..Phase::default() }];
 	}
-	if let Some(t) = args.opt_u64("t") {
-		plan.t = t as usize;
-	}
-	if let Some(n) = args.opt_u64("pairs_n") {
-		plan.pairs_n = n as usize;
-	}
-	if let Some(n) = args.opt_u64("weights_n") {
-		plan.weights_n = n as usize;
-	}
-	plan.lies = args.opt_u64("lies").unwrap_or(0) != 0;
 	let cap_s = if args.wall_cap_s > 0 {
 		args.wall_cap_s
 	} else if thorough {
@@ -674,19 +730,10 @@ fn main() {
 	let started = Instant::now();
 	let deadline = started + Duration::from_secs(cap_s);
 
-	let mut items = build_items(&plan);
-	// Largest work first so the tail of the parallel run is short; order of results is by index.
-	let weight = |it: &Item| -> u64 {
-		let n = it.tree.blocks() as u64 + 1;
-		let base = match &it.gen {
-			Gen::SpvTips { t } => (1..=*t as u32).map(|k| n.pow(k)).sum::<u64>(),
-			Gen::SpvFixed { .. } => 40,
-			Gen::InitAll => n * n,
-			Gen::InitFixed { others, .. } => others.len() as u64 * 4,
-		};
-		base * n * if it.faults { 60 } else { 1 } * if it.pairs { 60 } else { 1 }
-	};
-	items.sort_by_key(|it| std::cmp::Reverse(weight(it)));
+	let mut items: Vec<Item> = Vec::new();
+	for (i, ph) in phases.iter().enumerate() {
+		items.extend(build_items(ph, i, lies));
+	}
 	let n_items = items.len();
 	let results = par::map(&items, args.threads, |_, it| process_item(it, deadline));
 
@@ -750,22 +797,41 @@ fn main() {
 	ev.set("incomplete_work_items", acc.incomplete_items);
 	ev.set("violating_executions", acc.violating_runs);
 	ev.set("engine_wall_s", (wall * 100.0).round() / 100.0);
+	let n_max = phases.iter().flat_map(|p| p.trees.iter().map(|t| t.1)).max().unwrap_or(0);
+	let phase_json: Vec<Value> = phases
+		.iter()
+		.enumerate()
+		.map(|(i, p)| {
+			let n_items = items.iter().filter(|it| it.phase == i).count();
+			let inc = acc.incomplete_by_phase.get(&i).copied().unwrap_or(0);
+			json!({
+				"phase": p.name,
+				"tree_ranges_blocks_lo_hi_tips_lo_hi": p.trees.iter().map(|t| vec![t.0, t.1, t.2, t.3]).collect::<Vec<_>>(),
+				"fault_pairs_blocks_hi_tips_hi": p.pairs.map(|x| vec![x.0, x.1]),
+				"weighted_trees_blocks_lo_hi_tips_hi": p.weights.map(|x| vec![x.0, x.1, x.2]),
+				"evict_fork_depths": p.evict_depths,
+				"evict_modes": p.evict_modes.iter().map(|m| m.name()).collect::<Vec<_>>(),
+				"evict_fault_positions": if p.evict_all_positions { "every request" } else { "requests near step/phase boundaries and every cache-miss request" },
+				"batch_chain_lengths": p.batch_lens,
+				"work_items": n_items,
+				"work_items_cut_by_cap": inc,
+				"complete": inc == 0,
+			})
+		})
+		.collect();
 	ev.set(
 		"bounds",
 		json!({
-			"tree_blocks_max": plan.n,
-			"tree_shapes": tree_specs(plan.n).len(),
-			"tips_per_run_max": plan.t,
-			"source_modes": plan.modes.iter().map(|m| m.name()).collect::<Vec<_>>(),
-			"listener_start": "every node; start-up sync: every ordered pair of nodes x every best tip",
-			"faults": "one fault at every source request of every run, every applicable class",
-			"fault_pairs": if plan.pairs_n > 0 { format!("trees <= {} blocks, <= {} tips", plan.pairs_n, plan.pairs_t) } else { "none".to_string() },
-			"weighted_trees_blocks_max": plan.weights_n,
-			"weighted_tree_count": weighted_specs(plan.weights_n).len(),
-			"evict_fork_depths": plan.evict_depths,
-			"evict_fault_positions": format!("{:?}", plan.evict_positions),
+			"tree_blocks_max": n_max,
+			"rooted_tree_shapes_up_to_max": tree_specs(0, n_max).len(),
+			"source_modes": MODES.iter().map(|m| m.name()).collect::<Vec<_>>(),
+			"networks": "Network::Bitcoin (difficulty rules on) for everything; Network::Regtest for all error-free runs and the weighted trees",
+			"spv_entry": "fresh HeaderCache at every start node; cache+tip handed over by synchronize_listeners",
+			"listener_start": "every node; start-up sync: every ordered pair of nodes x every best tip x locator with/without previous_blocks x source with/without pruned stale branches",
+			"faults": "one fault at every source request of every scripted step, every applicable class",
+			"metadata_lie_classes_enabled": lies,
 			"header_cache_limit": LIMIT,
-			"batch_chain_lengths": plan.batch_lens,
+			"phases": phase_json,
 		}),
 	);
 	ev.set("executions_per_family", json!(acc.per_family));
@@ -795,7 +861,8 @@ fn main() {
 
 	// Vacuity guards (only meaningful on a complete run of the default plan).
 	let mut guard_failures: Vec<String> = Vec::new();
-	if !capped && args.opts.iter().all(|(k, _)| k == "lies") {
+	let quick_phase_complete = acc.incomplete_by_phase.get(&0).copied().unwrap_or(0) == 0;
+	if (!capped || (thorough && quick_phase_complete)) && args.opts.iter().all(|(k, _)| k == "lies") {
 		let need = [
 			"reorg",
 			"tie",
@@ -819,7 +886,7 @@ fn main() {
 			}
 		}
 		for c in ALL_CLASSES {
-			if c.is_metadata_lie() && !plan.lies {
+			if c.is_metadata_lie() && !lies {
 				continue;
 			}
 			if acc.fired[c.index()] == 0 {
@@ -829,7 +896,10 @@ fn main() {
 				guard_failures.push(format!("vacuity guard: fault class {} never observed to be refused", c.name()));
 			}
 		}
-		for d in &plan.evict_depths {
+		let mut depths: Vec<usize> = phases.iter().flat_map(|p| p.evict_depths.iter().copied()).collect();
+		depths.sort();
+		depths.dedup();
+		for d in &depths {
 			let (runs, reqs) = acc.evict.get(d).copied().unwrap_or((0, 0));
 			if runs == 0 {
 				guard_failures.push(format!("vacuity guard: eviction family depth {} not run", d));
